@@ -1,1 +1,46 @@
-From Verif Require Import Model.Store.
+(* Props/C20.v — Wait is a write barrier and always returns.
+   Events and Wait markers share one FIFO queue; the maintenance loop takes a prefix of it as a
+   batch, applies every event of the batch in order, and only then releases the markers of the
+   batch (each through its own reply channel — the F12 fix). *)
+From Coq Require Import ZArith List Bool.
+From Verif Require Import Base.Word64 Model.Store Proof.WaitP.
+Import ListNotations.
+Open Scope Z_scope.
+
+Theorem c20_barrier : forall s n now a0 rnd,
+  0 <= n ->
+  let k := Z.to_nat n in
+  let r := drain_batch s n now a0 rnd in
+  queue (fst r) = skipn k (queue s) /\
+  exists notes, snd r = notes ++ [-5] ++ markers (firstn k (queue s)).
+Proof. exact batch_barrier. Qed.
+Print Assumptions c20_barrier.
+
+(* whatever was sent before a marker (calls that had returned before Wait was called) lies ahead
+   of it in the queue and therefore in the same batch prefix: applied before the waiter is released *)
+Theorem c20_ahead_applied : forall (q : list witem) k w pre post,
+  q = pre ++ w :: post -> In w (firstn k q) -> (length pre < k)%nat -> forall x, In x pre -> In x (firstn k q).
+Proof. exact ahead_in_batch. Qed.
+Print Assumptions c20_ahead_applied.
+
+Theorem c20_fifo : forall s it, queue (send s it) = queue s ++ [it].
+Proof. exact send_fifo. Qed.
+Print Assumptions c20_fifo.
+
+(* every waiter returns: once the loop has consumed the queue every queued marker is released,
+   for any number of concurrent waiters and any batch boundaries *)
+Theorem c20_returns : forall s n now a0 rnd,
+  Z.of_nat (length (queue s)) <= n ->
+  exists notes, snd (drain_batch s n now a0 rnd) = notes ++ [-5] ++ markers (queue s) /\
+                queue (fst (drain_batch s n now a0 rnd)) = [].
+Proof. exact all_released. Qed.
+Print Assumptions c20_returns.
+
+Example c20_example :
+  let s0 := newStore 5 1 3 1 in
+  let s1 := fst (sset s0 1 10 1 0 2 111 true) in
+  let s2 := fst (st_step s1 [12; 7]) in
+  let s3 := fst (sset s2 2 20 1 0 3 222 true) in
+  let s4 := fst (st_step s3 [12; 8]) in
+  snd (st_step s4 [13; 2; 4; 0; 0]) = [-5; 7] /\ snd (st_step (fst (st_step s4 [13; 2; 4; 0; 0])) [13; 5; 4; 0; 0]) = [-5; 8].
+Proof. vm_compute. split; reflexivity. Qed.
